@@ -25,12 +25,7 @@ AuxS0(W) == [liqblk |-> [v \in Vs(W) |-> 0],
              upd |-> [v \in Vs(W) |-> [t \in Traders |-> IF W.eng.pos[v][t].exists THEN W.eng.pos[v][t].blk ELSE 0]]]
 AuxSNext(a, S, e, T) ==
   [liqblk |-> [v \in Vs(T) |-> IF EngOp(e, "liquidate") /\ e.res.ok /\ e.tx.a.vamm = v THEN S.blk.h ELSE a.liqblk[v]],
-   upd |-> [v \in Vs(T) |-> [t \in Traders |->
-              IF e.kind = "tx" /\ e.tx.c = "engine" /\ e.res.ok /\ e.tx.s = t
-                 /\ e.tx.m \in {"open_position", "close_position"} /\ e.tx.a.vamm = v
-              THEN (IF T.eng.pos[v][t].exists THEN S.blk.h ELSE 0)
-              ELSE IF EngOp(e, "liquidate") /\ e.res.ok /\ e.tx.a.vamm = v /\ e.tx.a.trader = t /\ ~T.eng.pos[v][t].exists
-              THEN 0 ELSE a.upd[v][t]]]]
+   upd |-> UpdNext(a.upd, S, e, T)]
 
 StructViol(S, e, T, a) ==
   CASE Only = "C08" -> V_C08(S, e, T, a)
@@ -53,7 +48,7 @@ TraceStep ==
      IN IF e.kind = "reset"
         THEN aux' = AuxS0(T) /\ hits' = Bump(hits, {"events", "scenarios"})
         ELSE LET bad == StructViol(S, e, T, aux)
-             IN /\ \A t \in bad : PrintT(<<"VIOL", l + 1, e.scn, e.i, t, "">>)
+             IN /\ \A t \in bad : PrintT(<<"VIOL", l + 1, e.scn, e.i, t, IF Only = "C16" THEN FindingOf(t, S, e, T) ELSE "">>)
                 /\ aux' = AuxSNext(aux, S, e, T)
                 /\ hits' = Bump(hits, StructAnte(S, e, T, aux) \cup {"events"})
   /\ l' = l + 1
